@@ -1718,9 +1718,13 @@ def run(idx, rep, tier):
              'finite input and the event loop starves')
     _fru = k.func('stream.SSHStreamSession.readuntil')
     _gru = k.cfg(_fru)
-    _cons = [n.id for n in _gru.nodes if isinstance(n.ast, ast.Assign) and any(
-        isinstance(t, ast.Subscript) and dotted(t.value) == 'recv_buf' and
-        isinstance(t.slice, ast.Slice) for t in n.ast.targets)]
+    _cons = [n.id for n in _gru.nodes if (
+        isinstance(n.ast, ast.Assign) and any(
+            isinstance(t, ast.Subscript) and dotted(t.value) == 'recv_buf' and
+            isinstance(t.slice, ast.Slice) for t in n.ast.targets)) or (
+        isinstance(n.ast, ast.Delete) and any(
+            isinstance(t, ast.Subscript) and dotted(t.value) == 'recv_buf' and
+            isinstance(t.slice, ast.Slice) for t in n.ast.targets))]
     _part = [n for n in _gru.nodes if isinstance(n.ast, ast.Raise) and
              n.ast.exc is not None and
              'IncompleteReadError' in unparse(n.ast.exc)]
